@@ -110,6 +110,17 @@ def _get_next_unique_id(id_: str) -> str:
     return id_
 
 
+def _unregister(node: ASTNode) -> bool:
+    """Remove the node from the registry, but only if it is the object
+    registered under its id (a detached node may share its id with a live
+    twin created later). Returns True if the node was removed."""
+    if NODE_REGISTRY.get(node.id) is node:
+        NODE_REGISTRY.pop(node.id, None)
+        return True
+
+    return False
+
+
 # Named Tuple for tree traversal functions
 class NodeTraversalInfo(NamedTuple):
     node: ASTNode
@@ -351,10 +362,10 @@ class ASTNode(DataClassSerializeMixin):
     def detach(self) -> None:
         """Removes this node and and the whole tree rooted with this node from
         the registry."""
-        NODE_REGISTRY.pop(self.id, None)
+        _unregister(self)
 
         for ni in self.dfs():
-            NODE_REGISTRY.pop(ni.node.id, None)
+            _unregister(ni.node)
 
     def detach_self(self) -> bool:
         """Removes this node from the registry.
@@ -362,7 +373,7 @@ class ASTNode(DataClassSerializeMixin):
         Returns:
             bool: True if the node was removed, False if it was not in the registry
         """
-        return NODE_REGISTRY.pop(self.id, None) is not None
+        return _unregister(self)
 
     def replace(self: ASTNodeType, **kwargs: Any) -> ASTNodeType:
         """Replaces this node in the registry with a new one with the given
@@ -386,7 +397,7 @@ class ASTNode(DataClassSerializeMixin):
         Returns:
             ASTNodeType: The new node
         """
-        ori_n = NODE_REGISTRY.pop(self.id, None)
+        ori_n = self if _unregister(self) else None
 
         try:
             new_node = replace(self, **kwargs)
